@@ -1,2 +1,112 @@
-(* C19 -- statements only. *)
-From UP Require Import Base.Chars Model.Uri.
+(* C19 -- the char and wchar_t APIs behave identically.  Statements only.
+
+   This property is PARTIAL BY NATURE as a theorem.  The model is written once over code points
+   (Base/Chars.v: characters are N, texts are list N), so "each wide-character function returns the same
+   code, components, text, error offsets, counts and required sizes as its narrow counterpart" is true of
+   the model by construction: there is one model function for both builds, and parse_m, add_base_m,
+   remove_base_m and every pure-tier function (parse, to_string / chars_required, the query and file-name
+   functions, compare, ...) do not take the character size at all -- their Coq types show it.  What ties
+   the two C builds to that single model is the run-time correspondence: every gen/cNN.py runs the A and
+   the W flavour (and the ASan "exact buffer" flavours) against the same model output.
+   What CAN be a theorem, and is proved here, is the second sentence of the property for the only
+   model functions that mention the character size [csize] = sizeof(URI_CHAR), uriMakeOwnerMm and
+   uriNormalizeSyntaxExMm: all sizes and copies are computed in characters rather than bytes.
+   The theorems pin that contract; gen/c14.py checks the real allocation traces of both builds against it.
+
+   Vocabulary (Proofs/OwnershipProofs.v, Part 0, Part 4, Part 6):
+     areq                an allocation request counted in characters: RText n (a text of n characters),
+                         RNode calloc (a path-segment node), RIp4, RIp6
+     req_event csize r   the ledger event of the request in a build with sizeof(URI_CHAR) = csize:
+                         RText n -> EvMalloc (n * csize) true; RNode true -> EvCalloc SEG_SIZE true;
+                         RNode false / RIp4 / RIp6 -> EvMalloc SEG_SIZE / IP4_SIZE / IP6_SIZE true
+                         (structure sizes do not depend on csize)
+     owner_plan u        the requests of make-owner on a borrowed object of value u: one RText (length t)
+                         for each present non-empty text, in the order scheme, userInfo, query, fragment,
+                         host (the ipFuture range if set, else hostText), segments, portText
+     normalize_plan mask owned u
+                         the requests of normalisation: for a borrowed object the copies of the masked
+                         components (lengths BEFORE normalisation, as the C code allocates before it
+                         rewrites), the segment copies, the trailing node of the dot-segment walk if it
+                         needs one, then the make-owner requests of what is left; for an owned object
+                         (in place) at most that trailing node.  A function of mask and value only.
+     new_events s s'     the events appended between the ledger states s and s'
+     allocs tr           the allocation requests of a trace (releases dropped: a release prints the size
+                         recorded when the block was handed out)
+     trace_chars csize tr   every EvMalloc size divided by csize
+     text_or_node r      r is RText _ or RNode true
+   All theorems: fault plan NoFault, csize arbitrary (csize <> 0 where a division is involved), every
+   well-formed input (mwf, see Props/C12.v).
+
+   Missing for the full property (hence the _partial suffix on the summary theorem): nothing is proved
+   about the C code itself; functions whose model does not mention csize are covered only by
+   construction; byte sizes of releases are not related across builds; "wide results are complete and
+   never overrun or under-fill their buffers" for the string-producing functions is C05 / C17 / C18 on
+   the shared model plus the -DDRV_EXACT ASan builds of the W flavour, not a theorem here. *)
+From Coq Require Import List NArith Bool.
+From UP Require Import Base.Chars Model.Uri Model.Normalize Model.Mem Model.OpsM Proofs.OwnershipProofs.
+Import ListNotations.
+Local Open Scope N_scope.
+
+(* make-owner on a borrowed object: the events it adds are exactly the text copies of the plan, each of
+   length * csize bytes, and nothing else (no release, no node) *)
+Theorem C19_make_owner_requests : forall csize m s rc m' s',
+  nofault s -> mwf m -> m_owner m = false -> make_owner_m csize m s = (rc, m', s') ->
+  new_events s s' = map (req_event csize) (owner_plan (erase m)).
+Proof. exact C19_make_owner_requests_stmt. Qed.
+Print Assumptions C19_make_owner_requests.
+
+(* normalisation, borrowed or owned, any non-zero mask: the allocation requests it adds are exactly the
+   plan's: text copies of length * csize bytes, nodes of SEG_SIZE bytes *)
+Theorem C19_normalize_requests : forall csize mask m s rc m' s',
+  nofault s -> mwf m -> mask <> 0 -> normalize_m csize mask m s = (rc, m', s') ->
+  allocs (trace_of s') = allocs (trace_of s) ++ map (req_event csize) (normalize_plan mask (m_owner m) (erase m)).
+Proof. exact C19_normalize_requests_stmt. Qed.
+Print Assumptions C19_normalize_requests.
+
+(* the plans consist of text copies and zero-initialised nodes only, so dividing the malloc sizes by
+   csize recovers the character counts whatever the character type *)
+Theorem C19_plans_kind : forall mask owned u,
+  Forall text_or_node (owner_plan u) /\ Forall text_or_node (normalize_plan mask owned u).
+Proof. exact C19_plans_kind_stmt. Qed.
+Print Assumptions C19_plans_kind.
+
+Theorem C19_trace_chars : forall c1 c2 plan, c1 <> 0 -> c2 <> 0 -> Forall text_or_node plan ->
+  trace_chars c1 (map (req_event c1) plan) = trace_chars c2 (map (req_event c2) plan).
+Proof. exact trace_chars_two. Qed.
+Print Assumptions C19_trace_chars.
+
+(* two builds, two ledgers: same return code, same value, same trace in characters *)
+Theorem C19_make_owner_two_sizes_partial : forall c1 c2 m s1 s2,
+  c1 <> 0 -> c2 <> 0 -> nofault s1 -> nofault s2 -> mwf m -> m_owner m = false ->
+  let r1 := make_owner_m c1 m s1 in let r2 := make_owner_m c2 m s2 in
+  fst (fst r1) = fst (fst r2)
+  /\ erase (snd (fst r1)) = erase (snd (fst r2))
+  /\ trace_chars c1 (new_events s1 (snd r1)) = trace_chars c2 (new_events s2 (snd r2)).
+Proof. exact C19_make_owner_two_sizes_stmt. Qed.
+Print Assumptions C19_make_owner_two_sizes_partial.
+
+Theorem C19_normalize_two_sizes_partial : forall c1 c2 mask m s1 s2,
+  c1 <> 0 -> c2 <> 0 -> nofault s1 -> nofault s2 -> mwf m -> mask <> 0 ->
+  let r1 := normalize_m c1 mask m s1 in let r2 := normalize_m c2 mask m s2 in
+  fst (fst r1) = fst (fst r2)
+  /\ erase (snd (fst r1)) = erase (snd (fst r2))
+  /\ exists ev1 ev2, allocs (trace_of (snd r1)) = allocs (trace_of s1) ++ ev1
+                  /\ allocs (trace_of (snd r2)) = allocs (trace_of s2) ++ ev2
+                  /\ trace_chars c1 ev1 = trace_chars c2 ev2.
+Proof. exact C19_normalize_two_sizes_stmt. Qed.
+Print Assumptions C19_normalize_two_sizes_partial.
+
+(* "//H%41/a/b/.." normalised with every bit, char (1) and wchar_t (4): host copied as 4 characters, three
+   segment copies, the trailing node of the dot-segment walk *)
+Example C19_nonvacuous :
+  let t := [47; 47; 72; 37; 52; 49; 47; 97; 47; 98; 47; 46; 46] in
+  match ParseM.parse_m t (ms_init NoFault) with
+  | (ParseM.MOk m, s1) =>
+    normalize_plan 63 false (erase m) = [RText 4; RText 1; RText 1; RText 2; RNode true]
+    /\ (let '(_, _, s2) := normalize_m 1 63 m s1 in
+        allocs (new_events s1 s2) = [EvMalloc 4 true; EvMalloc 1 true; EvMalloc 1 true; EvMalloc 2 true; EvCalloc 32 true])
+    /\ (let '(_, _, s2) := normalize_m 4 63 m s1 in
+        allocs (new_events s1 s2) = [EvMalloc 16 true; EvMalloc 4 true; EvMalloc 4 true; EvMalloc 8 true; EvCalloc 32 true])
+  | _ => False
+  end.
+Proof. vm_compute. repeat split. Qed.
